@@ -37,6 +37,10 @@ def build_conn(cd):
 
 def flow_of(cd, i):
     f = cd.get("flow", {})
+    if "cip" in f:   # explicit endpoints (hex strings)
+        from wire.l2l4 import Endpoint, Flow
+        return Flow(Endpoint(bytes.fromhex(f["cmac"]), bytes.fromhex(f["cip"]), f["cport"]),
+                    Endpoint(bytes.fromhex(f["smac"]), bytes.fromhex(f["sip"]), f["sport"]))
     return mk_flow(f.get("idx", i), ipv=f.get("ipv", 4), cport=f.get("cport"), sport=f.get("sport", 443),
                    chost=f.get("chost"), shost=f.get("shost"))
 
@@ -148,6 +152,11 @@ def observe_tls(res, conns, flows, opts=()):
 def run_tls(sc, trace=False):
     cap, keylog, conns, flows = build_tls_capture(sc)
     opts = sc.get("opts", [])
-    res = runner.run_inproc(pcapng_bytes(cap.pkts), "\n".join(keylog) + "\n", opts=opts, trace=trace)
+    ct = sc.get("container", {})
+    pkts = cap.pkts
+    if ct.get("sub"):      # sub-microsecond parts: timestamps become rationals (numerator, denominator) of seconds
+        pkts = [((ts * 1000 + (i * 377) % 1000, 10 ** 9), fr) for i, (ts, fr) in enumerate(cap.pkts)]
+    data = pcapng_bytes(pkts, le=ct.get("le", True), tsresol=ct.get("tsresol"), tsoffset=ct.get("tsoffset"))
+    res = runner.run_inproc(data, "\n".join(keylog) + "\n", opts=opts, trace=trace)
     obs, o = observe_tls(res, conns, flows, opts)
     return cap, conns, flows, res, obs, o
